@@ -650,3 +650,81 @@ def block_contracts():
     c.cases = [(cls, {"key": "str", "value": "pyval", "level": "int", "__cls__": cls}) for cls in ("PVLEncoder", "ODLEncoder", "ISISEncoder")]
     out.append(c)
     return out
+
+
+# ------------------------------------------------------------------------------------------------
+# T_off: ODLDecoder.decode_datetime - an ODL zone offset gives that fixed offset (C14)
+
+def offset_contracts(pid="C14"):
+    from ..pyvc.core import ObjV, Z
+    I, B = z3.IntSort(), z3.BoolSort()
+    SIGN, H, M = z3.Const("group_sign", I), z3.Const("group_hour", I), z3.Const("group_minute", I)
+    MATCH = z3.Const("offset_pattern_matches", B)
+    DTZ = z3.Const("group_dt_ends_with_Z_or_z", B)
+    out = []
+
+    # super().decode_datetime(text): PVLDecoder's cascade - returns a value (temporal or not) or raises ValueError;
+    # which of the two texts it is applied to is recorded in the result
+    def inner_value(ex):
+        a = ex.st.ghost["call_args"]
+        tid_ = a["value"].info["id"]
+        return ObjV("decoded", info={"of": tid_, "temporal": z3.Const(f"decode_{tid_}_is_a_time_or_datetime", B)})
+    inner = Contract("pvl.decoder.PVLDecoder.decode_datetime", params={"value": "text"}, exits=[
+        Exit("return", res=inner_value, when=lambda pre, a: z3.Const(f"decode_{a['value'].info['id']}_accepts", B)),
+        Exit("ValueError", when=lambda pre, a: z3.Not(z3.Const(f"decode_{a['value'].info['id']}_accepts", B)))])
+    inner.assumed = True
+    inner.note = "the strptime cascade, functional contract in T_dec (decoder-and-token-contracts)"
+    out.append(inner)
+
+    ACC_V = z3.Const("decode_value_accepts", B)
+    ACC_DT = z3.Const("decode_group_dt_accepts", B)
+    TEMP_DT = z3.Const("decode_group_dt_is_a_time_or_datetime", B)
+    sem = z3.And(z3.Or(SIGN == 1, SIGN == -1), H >= 0, H <= 12, M >= 0, M <= 59)
+
+    def accepts_offset(pre, a):
+        return z3.And(z3.Not(ACC_V), MATCH, ACC_DT, TEMP_DT, z3.Not(DTZ))
+
+    def post(pre, post_, a, r):
+        out_ = []
+        if not (isinstance(r, ObjV) and r.role == "decoded"):
+            return [("returns a decoded value", z3.BoolVal(False))]
+        if r.info.get("rezoned"):
+            out_.append(("an offset is attached only to a time / date-time that the plain decoder accepts without the suffix, "
+                         "that is not already marked Z, and only after the whole text was refused", accepts_offset(pre, a)))
+            out_.append(("the attached zone is the written offset: sign * (HH hours + MM minutes)",
+                         r.info["zone"] == z3.ToReal(SIGN * (H * 3600 + M * 60))))
+            out_.append(("the value decoded is the part before the sign", z3.BoolVal(r.info["of"] == "group_dt")))
+        else:
+            out_.append(("without an offset suffix the result is the plain decoder's result for the whole text",
+                         z3.And(ACC_V, z3.BoolVal(r.info["of"] == "value"))))
+        return out_
+    c = Contract("pvl.decoder.ODLDecoder.decode_datetime", params={"value": "text"},
+                 requires=lambda pre, a: [("the groups of the offset pattern: sign, hour 0-12, minute 0-59 (regex obligations offset:*)", sem)],
+                 exits=[Exit("return", res="any", when=lambda pre, a: z3.Or(ACC_V, accepts_offset(pre, a)), post=post),
+                        Exit("ValueError", when=lambda pre, a: z3.Not(z3.Or(ACC_V, accepts_offset(pre, a))))], props=("C14",))
+    c.cases = [(cls, {"value": "text", "__cls__": cls}) for cls in ("ODLDecoder", "OmniDecoder")]
+
+    def replayer(model, args, ex):
+        """the counter-model fixes sign / hour / minute: write them as a suffix of a plain time and run the real decoder"""
+        import datetime as dt
+        import pvl.decoder as D
+
+        def num(t):
+            return model.eval(t, model_completion=True).as_long()
+        sign, h, m = num(SIGN), num(H), num(M)
+        if sign not in (1, -1) or not (0 <= h <= 12 and 0 <= m <= 59):
+            return None
+        text = "12:30" + ("+" if sign == 1 else "-") + f"{h:02d}:{m:02d}"
+        want = dt.timedelta(seconds=sign * (h * 3600 + m * 60))
+        try:
+            got = D.ODLDecoder().decode_datetime(text)
+        except ValueError as e:
+            return (f"{pid}:decode_datetime:offset:{text}", f"ODLDecoder().decode_datetime({text!r}) raises ValueError: {e}",
+                    {"text": text, "function": "pvl.decoder.ODLDecoder.decode_datetime"})
+        if isinstance(got, dt.time) and got.utcoffset() == want and (got.hour, got.minute) == (12, 30):
+            return None
+        return (f"{pid}:decode_datetime:offset:{text}", f"ODLDecoder().decode_datetime({text!r}) gives {got!r}: the zone should be {want}",
+                {"text": text, "read_as": repr(got), "function": "pvl.decoder.ODLDecoder.decode_datetime"})
+    c.replayer = replayer
+    out.append(c)
+    return out
